@@ -277,6 +277,12 @@ func runC12(c *an.Ctx) {
 	// ---- R7 cache keys
 	c12Key(c, "filter/internal.NewCacheKey", []string{"p0", "p1", "p2", "p3"})
 
+	cachePerEngine(c, "C12-R8")
+}
+
+// cachePerEngine checks that every rule-list engine gets its own result cache.
+func cachePerEngine(c *an.Ctx, rule string) {
+	const rl = "filter/internal/rulelist."
 	// ---- R8 one cache per engine
 	ctors := map[string]int{ // constructor -> index of the cache argument
 		rl + "NewImmutable": 3, rl + "NewFromString": 3, rl + "newFilter": 3, rl + "NewRefreshable": 1,
@@ -327,7 +333,7 @@ func runC12(c *an.Ctx) {
 			v := an.Unwrap(arg)
 			switch x := v.(type) {
 			case *ssa.Parameter:
-				c.Ok("C12-R8", key, call.Pos(), "passes its own cache parameter on to exactly this engine (checked at its callers)")
+				c.Ok(rule, key, call.Pos(), "passes its own cache parameter on to exactly this engine (checked at its callers)")
 				// a parameter may only be forwarded to one constructor call in this function
 				n := 0
 				for _, c2 := range an.Calls(fn) {
@@ -338,12 +344,12 @@ func runC12(c *an.Ctx) {
 					}
 				}
 				if n > 1 || an.CanReach(call, call) {
-					c.Bad("C12-R8", key+" shared", call.Pos(), "one cache parameter is handed to several engines")
+					c.Bad(rule, key+" shared", call.Pos(), "one cache parameter is handed to several engines")
 				}
 			case *ssa.Call:
 				name := an.Short(an.CalleeName(x))
 				if !strings.Contains(name, "ResultCache") && !strings.Contains(name, "NewLRU") {
-					c.Und("C12-R8", key, call.Pos(), "cache argument comes from %s", name)
+					c.Und(rule, key, call.Pos(), "cache argument comes from %s", name)
 					continue
 				}
 				users := 0
@@ -354,18 +360,18 @@ func runC12(c *an.Ctx) {
 				}
 				shared := an.CanReach(call, call) && !an.CanReach(x, x)
 				if shared {
-					c.Bad("C12-R8", key, call.Pos(), "the result cache created at %s outside the loop is shared by every engine built in the loop; the cache key does not identify the list, so one list's verdict is served for another", c.Pos(x.Pos()))
+					c.Bad(rule, key, call.Pos(), "the result cache created at %s outside the loop is shared by every engine built in the loop; the cache key does not identify the list, so one list's verdict is served for another", c.Pos(x.Pos()))
 				} else {
-					c.Ok("C12-R8", key, call.Pos(), "result cache created for this engine by %s", name)
+					c.Ok(rule, key, call.Pos(), "result cache created for this engine by %s", name)
 				}
 			default:
 				if strings.HasSuffix(an.TypeName(arg.Type()), "ResultCacheEmpty") || isEmptyCache(v) {
-					c.Ok("C12-R8", key, call.Pos(), "no result cache (ResultCacheEmpty)")
+					c.Ok(rule, key, call.Pos(), "no result cache (ResultCacheEmpty)")
 				} else if fv, isFV := v.(*ssa.FreeVar); isFV {
 					_ = fv
-					c.Bad("C12-R8", key, call.Pos(), "the result cache is captured from an enclosing function and shared by the engines built here")
+					c.Bad(rule, key, call.Pos(), "the result cache is captured from an enclosing function and shared by the engines built here")
 				} else {
-					c.Und("C12-R8", key, call.Pos(), "cannot identify where the cache argument (%T) comes from", v)
+					c.Und(rule, key, call.Pos(), "cannot identify where the cache argument (%T) comes from", v)
 				}
 			}
 		}
